@@ -431,7 +431,7 @@ class ScriptGen:
     def new_temp(self, D, typ, pool=None, allow_existing=True):
         """name for an assignment target of the given type."""
         t = self.tape
-        pool = pool or (TEMP_POOL if self.F.adv_names else TEMP_POOL[:6])
+        pool = pool or ((TEMP_POOL if self.F.adv_names else TEMP_POOL[:6]) + list(self.cfg.get("extra_temps", [])))
         same = [n for n in self.types if self.types[n] == typ and n in self.assignable
                 and not n.startswith("$") and n not in ("<t>", "<dt>")]
         fresh = [n for n in self.fresh_handles if self.types.get(n, typ) == typ]
@@ -964,6 +964,42 @@ def apply_script(sc):
             apply_ops(cb, ph.ops, ap, ph.name)
         ap.builders[ph.name] = cb
     return ap
+
+
+def script_names(sc, ap):
+    """every variable name the script mentions (targets, expression variables, loop counters, guard
+    flags are not included) -- collected from the script itself, not from dagrt's read/write sets."""
+    from simdag.gen.expr import expr_vars
+    out = {}
+
+    def ops(os_, acc):
+        for op in os_:
+            k = op[0]
+            if k == "assign":
+                acc.add(ap.nm(op[1]))
+                for e in [op[3]] + ([op[2]] if op[2] is not None else []):
+                    acc.update(ap.nm(v) for v in expr_vars(e))
+                for c, lo, hi in op[4]:
+                    acc.add(ap.nm(c))
+                    acc.update(ap.nm(v) for v in expr_vars(lo) + expr_vars(hi))
+            elif k == "call":
+                acc.update(ap.nm(a) for a in op[1])
+                acc.update(ap.nm(v) for v in expr_vars(op[2]))
+            elif k == "yield":
+                acc.update(ap.nm(v) for v in expr_vars(op[1]) + expr_vars(op[3]))
+            elif k == "if":
+                form = op[1]
+                es = [form[1]] if form[0] == "1" else [form[1], form[3]]
+                for e in es:
+                    acc.update(ap.nm(v) for v in expr_vars(e))
+                ops(op[2], acc)
+                if op[3]:
+                    ops(op[3], acc)
+    for ph in sc.phases:
+        acc = set()
+        ops(ph.ops, acc)
+        out[ph.name] = acc
+    return out
 
 
 def make_function_map(sc, table=None):
